@@ -831,13 +831,14 @@ def _dot_csc_ndarray_type_sparse(dt1, dt2):
         nnz = _csc_ndarray_count_nnz(a_shape, b_shape, indptr, a_indices, a_indptr, b)
         indices = np.empty(nnz, dtype=np.intp)
         data = np.empty(nnz, dtype=dtr)
-        sums = np.zeros(a_shape[0])
+        sums = np.zeros(a_shape[0], dtype=dtr)
         mask = np.full(a_shape[0], -1)
         nnz = 0
         indptr[0] = 0
         for i in range(b_shape[1]):
             head = -2
             length = 0
+            col_start = nnz
             for j in range(b_shape[0]):
                 u = b[j, i]
                 if u != 0:
@@ -850,16 +851,22 @@ def _dot_csc_ndarray_type_sparse(dt1, dt2):
                             head = ind
                             length += 1
             for _ in range(length):
-                if sums[head] != 0:
-                    indices[nnz] = head
-                    data[nnz] = sums[head]
-                    nnz += 1
+                # every touched position was counted by _csc_ndarray_count_nnz, so every one
+                # is written; sums that cancel are removed by prune=True in _dot
+                indices[nnz] = head
+                data[nnz] = sums[head]
+                nnz += 1
 
                 temp = head
                 head = mask[head]
 
                 mask[temp] = -1
                 sums[temp] = 0
+
+            # the linked list yields the rows in reverse first-touch order: sort the column
+            order = np.argsort(indices[col_start:nnz])
+            indices[col_start:nnz] = indices[col_start:nnz][order]
+            data[col_start:nnz] = data[col_start:nnz][order]
         return data, indices, indptr
 
     return _dot_csc_ndarray_sparse
